@@ -451,11 +451,7 @@ PLAN_C09 = dict(
               thorough=[SIM(1500, 18, **P)]),
           gen('Gen_Stake.cfg', 'MC_Stake.tla', universe_extra=STAKE_X, mode='trace',
               quick=[SIM(30, 16, **P)],
-              thorough=[SIM(1000, 18, **dict(MS, **P))]),
-          # announcements racing with a wallet import (F-C09-2 was found here): without removals the model's pending set is exact
-          gen('Gen_Pay.cfg', 'MC_Pay.tla', mode='trace', trace_pend=True, filter=free_runnable,
-              quick=[SIM(60, 16, **dict(IMPORT_ONLY, **P))],
-              thorough=[SIM(1500, 18, **dict(IMPORT_ONLY, **P))])],
+              thorough=[SIM(1000, 18, **dict(MS, **P))])],
     assume=['theme "incoming" has stranger-owned inputs: a conflict on a stranger\'s coin is invisible to the follower (K-C09-2); the model transcribes the code\'s purge rule and the ideal (Settle) is compared separately'],
 )
 
@@ -612,6 +608,10 @@ PLAN_C08 = dict(
 )
 PROPS['C07'] = plan_check(PLAN_C07)
 PROPS['C08'] = plan_check(PLAN_C08)
+# announcements racing with a wallet import (F-C09-2 was found here): without removals the model's pending set is exact
+PLAN_C09['gens'].append(gen('Gen_Pay.cfg', 'MC_Pay.tla', mode='trace', trace_pend=True, filter=free_runnable,
+                            quick=[SIM(60, 16, **dict(IMPORT_ONLY, **P))],
+                            thorough=[SIM(1500, 18, **dict(IMPORT_ONLY, **P))]))
 # crashes during background import / removal belong to C06 as well
 PLAN_C06['gens'][0]['quick'].append(SIM(60, 16, **dict(LIFE, Crashes='TRUE')))
 PLAN_C06['gens'][0]['thorough'].append(SIM(1500, 18, **dict(LIFE, Crashes='TRUE')))
